@@ -3,6 +3,7 @@ import Driver.Ops.Cidr
 import Driver.Ops.Conc
 import Driver.Ops.Jinja
 import Driver.Ops.Lifecycle
+import Driver.Ops.Matcher
 import Driver.Ops.Merge
 import Driver.Ops.TextFile
 import Driver.Ops.Tftp
@@ -18,6 +19,7 @@ def allOps : List (String × Op) :=
   Driver.Conc.ops ++
   Driver.Jinja.ops ++
   Driver.Lifecycle.ops ++
+  Driver.Matcher.ops ++
   Driver.Merge.ops ++
   Driver.TextFile.ops ++
   Driver.Tftp.ops
